@@ -117,6 +117,9 @@ def _(self, query, cache=None, description=None, store_key=None, store_to=None, 
     modifies_all(self)
     modifies(c.cmeta, c.cdata, g.cmeta, g.cdata)
     ensures(implies(old(isnone(self.query)) and bypass, log_count("Cache.get") == 0), "lookup-bypassed-for-extra-parameters-and-input-values")
+    ensures(implies(old(isnone(self.query)) and log_count("Cache.get") > 0,
+                    log_arg("Cache.get", "key") == canonical(unopt(self.query)) and log_arg("Cache.get", "self") is c),
+            "the-lookup-uses-the-canonical-text-of-the-query,in-the-cache-that-was-given")
     ensures(implies(log_count("Cache.store") > 0 and not isnone(cache), log_arg("Cache.store", "self") is unopt(cache)), "stores-only-into-the-given-cache")
     ensures(implies(log_count("Context.evaluate_action") == 0, log_count("Cache.store") == 0), "only-freshly-computed-results-are-stored")
     ensures(implies(log_count("Cache.store") > 0,
